@@ -1,4 +1,5 @@
 import Swim.Util.Parse
+import Swim.Drv.C17
 import Swim.Model.Handoff
 import Swim.Model.Ingest
 /-! Driver side of the C13 / C14 correspondences. -/
@@ -147,6 +148,7 @@ def handleC15 (kind : String) (fs : List (String × String)) : String :=
 def handleC14 (kind : String) (fs : List (String × String)) : String :=
   match kind with
   | "mut" => handleC14Mut fs
+  | "conc" => Swim.Drv.C17.handleConc fs
   | _ => "PARSE kind"
 
 end Swim.Drv.Ingest
